@@ -753,8 +753,8 @@ PARTIAL = [
     {"theorem": "compose_assoc_mprocess_partial (M1∘M2)∘ρ = M1∘(M2∘ρ)", "missing": "exact only in the no-truncation regime: the composite renormalises over all joint outcomes, the step-by-step evaluation inside each earlier outcome's block (witness compose_assoc_mprocess_truncation_fails, equal eps_zero = 1/7); the difference is bounded by the truncated mass — inherent to thresholding, not recorded as a defect"},
     {"theorem": "bracketing on the executed path", "missing": "tree_eval_instruments / tree_bracketing_instruments / composeChain_eq_rightNested cover every chain of gates and measurement processes on Tree.eval / composeChain (outcome maps, layout, shape; eps_zero of the result = largest eps_zero in the chain, not stated); chains of gates ending in a state: gate_chain_state_bracketing (any length); chains with measurement processes before a state or starting with a POVM have the exact triples (assoc_*), the forStates-level lemmas and ensemble_step_partial / compose_assoc_mprocess_partial, not one ∀-length theorem on compose"},
     {"theorem": "mprocess_state_partial", "missing": "closed formulas HS_x rho / p_x, weight*p_x are for the no-truncation regime; the eps_zero branch: mprocess_state_exact (definitional closed form) + truncated_probs_sum, truncated_weighted_state, post_states_normalised"},
-    {"theorem": "ensemble_step_partial / compose_assoc_mprocess_partial / assoc_povm_mprocess_state_partial", "missing": "no-truncation regime, zero-distribution branch not covered; stated on forStates / bornRaw (unnormalised states, raw weights), not on mpState / mpEnsemble / povmEnsemble through C16.ctor; peShape is generated but only the correspondence ties it"},
-    {"theorem": "Born distribution", "missing": "born_sum_one, born_nonneg are about bornRaw, truncNorm_sum_one / truncNorm_nonneg / truncNorm_generic about truncate_and_normalize; the composition povmState = ctor ∘ truncNorm ∘ bornRaw is not assembled into one statement"},
+    {"theorem": "ensemble_step_partial / compose_assoc_mprocess_partial / assoc_povm_mprocess_state_partial", "missing": "no-truncation regime, zero-distribution branch not covered; stated on forStates / bornRaw (unnormalised states, raw weights); mpState is reached by mpState_generic_partial, mpEnsemble / povmEnsemble through C16.ctor are not; peShape is generated but only the correspondence ties it"},
+    {"theorem": "Born distribution", "missing": "born_sum_one, born_nonneg are about bornRaw, truncNorm_sum_one / truncNorm_nonneg / truncNorm_generic about truncate_and_normalize; povm_state_generic assembles povmState = ctor ∘ bornRaw for identity-sum POVM / unit-trace state / no weight below atol; the truncating case only through truncNorm_sum_one / truncNorm_nonneg"},
     {"theorem": "a gate acts through its Kraus operators", "missing": "gate_state_kraus proves it for an HS matrix given as the HS of the Kraus operators (any basis, any dimension); that to_kraus_matrices returns such operators is C02's conversion, checked here by oracle_kraus on the real code only"},
     {"theorem": "mode1_to_povm_partial", "missing": "real eigenvector matrices, pairwise different eigenvalues, fold form of the spectral sum (not identified with eighRecon); repeated eigenvalues, the complex case, mode1Apply and mode 0 (sqrtm, D14 open) are covered by correspondence / oracle only"},
     {"theorem": "compose_physical", "missing": "only the equality parts (tp_comp_tp, povm_gate_identity_sum, povm_mprocess_identity_sum, mprocess_prob_sum_one); sumtp_mpMp; complete positivity of compositions is not proved"},
